@@ -41,6 +41,7 @@ fn main() {
         i += 1;
     }
     let tier = tier.take().unwrap_or(arg_tier);
+    std::env::set_var("ZKV_VERIF", &verif);
     install_panic_hook();
 
     // the references must reproduce their published vectors before anything is judged
